@@ -84,11 +84,14 @@ func genDL(t *rapid.T) DLCase {
 	n := rapid.IntRange(0, 3).Draw(t, "nNuisance")
 	for i := 0; i < n; i++ {
 		var b speer.Behaviour
-		switch rapid.IntRange(0, 7).Draw(t, "nk") {
+		switch rapid.IntRange(0, 8).Draw(t, "nk") {
 		case 7:
 			// serves a few blocks, chokes, unchokes at once, and never answers again (connected and unchoking)
 			b.ChokeAfter, b.ChokeMs = rapid.IntRange(1, 3).Draw(t, "ca2"), rapid.SampledFrom([]int{1, 20}).Draw(t, "cms2")
 			b.StallAfter, b.StallMs = b.ChokeAfter, 120000
+		case 8:
+			// unchoking fast peer that turns down some requests once (a reject that crossed its own unchoke)
+			b.RejectEvery = rapid.IntRange(1, 4).Draw(t, "re")
 		case 0:
 			b.NeverUnchoke = true
 		case 1:
@@ -259,7 +262,7 @@ func runDL(c DLCase) core.Result {
 				panic(err)
 			}
 			defer ln.Close()
-			listeners = append(listeners, lst{ln, b, mkOpts(10+i, i%3 != 0, mseOpts(1, false))})
+			listeners = append(listeners, lst{ln, b, mkOpts(10+i, i%3 != 0 || b.RejectEvery > 0, mseOpts(1, false))})
 			peerAddrs = append(peerAddrs, ln.Addr().String())
 		}
 	}
@@ -284,7 +287,7 @@ func runDL(c DLCase) core.Result {
 						return
 					}
 					s := track(speer.Serve(p, L.b, F, int(l.PieceLength), infoBytes))
-					if L.b.Honest() && L.b.Have == nil && !L.b.NeverUnchoke && L.b.DisconnectAfter == 0 && L.b.StallMs == 0 && L.b.ChokeAfter == 0 && L.b.DuplicateEvery == 0 {
+					if L.b.Honest() && L.b.Have == nil && !L.b.NeverUnchoke && L.b.DisconnectAfter == 0 && L.b.StallMs == 0 && L.b.ChokeAfter == 0 && L.b.DuplicateEvery == 0 && L.b.RejectEvery == 0 {
 						honestC <- s
 					}
 					servers <- s
@@ -368,7 +371,7 @@ func runDL(c DLCase) core.Result {
 			if c.Enc == 3 || c.Enc == 4 {
 				m = mseOpts(2, true)
 			}
-			dial(10+i, b, i%3 != 0, m)
+			dial(10+i, b, i%3 != 0 || b.RejectEvery > 0, m)
 		}
 	}
 
@@ -396,7 +399,7 @@ func runDL(c DLCase) core.Result {
 				allMu.Unlock()
 				var h *speer.Server
 				for _, s := range srv {
-					if s.B.Honest() && s.B.Have == nil && !s.B.NeverUnchoke && s.B.DisconnectAfter == 0 && s.B.StallMs == 0 && s.B.ChokeAfter == 0 && s.B.DuplicateEvery == 0 && !s.P.Closed() {
+					if s.B.Honest() && s.B.Have == nil && !s.B.NeverUnchoke && s.B.DisconnectAfter == 0 && s.B.StallMs == 0 && s.B.ChokeAfter == 0 && s.B.DuplicateEvery == 0 && s.B.RejectEvery == 0 && !s.P.Closed() {
 						h = s
 					}
 				}
